@@ -25,3 +25,14 @@ def untraced():
             yield
     else:
         yield
+
+
+def fresh_env(seed="0"):
+    """environment for a fresh interpreter that analyses the same tree as this process (honours the VERIF_REPO development aid)"""
+    import os
+
+    env = {"PYTHONHASHSEED": str(seed), "PATH": "/usr/bin:/bin", "PYTHONDONTWRITEBYTECODE": "1"}
+    if os.environ.get("VERIF_REPO"):
+        env["VERIF_REPO"] = os.environ["VERIF_REPO"]
+        env["PYTHONPATH"] = os.environ["VERIF_REPO"]
+    return env
